@@ -205,3 +205,32 @@ Proof. intros Hf Hm Ha Hv. unfold macro_p. destruct (process s); cbn [negb]; [|a
   clearbody s2. eapply eqf_trans; [|exact F2]. eapply eqf_trans; [|apply (set_ws_eqf false s2)].
   apply set_verse_eqf. change (verse (s2 <| ws := false |>)) with (verse s2). rewrite (eqf_get verse _ _ (fun _ => eq_refl) F2). exact Hv. Qed.
 
+
+Lemma set_quiet_eqf q s : s <| quiet := q |> ~= s. Proof. destruct s; reflexivity. Qed.
+Lemma set_macro_eqf q s : s <| macro := q |> ~= s. Proof. destruct s; reflexivity. Qed.
+Lemma set_args_eqf q s : s <| args := q |> ~= s. Proof. destruct s; reflexivity. Qed.
+Lemma close_inline_loop_eqf cur : forall n s, fmt s = FX -> markup_ok (mtags s) -> close_inline_loop n cur s ~= s.
+Proof. induction n as [|n IH]; intros s Hf Hm; [apply eqf_refl|]. cbn [close_inline_loop]. destruct (top (sinline s)) as [sc|]; [|apply eqf_refl].
+  set (s2 := warn_unclosed sc (s <| macro := cur |>) <| macro := R "Em" |> <| args := tag_args (sc_tag sc) |>).
+  assert (F2 : s2 <| quiet := true |> ~= s).
+  { eapply eqf_trans; [apply set_quiet_eqf|]. unfold s2. eapply eqf_trans; [apply set_args_eqf|]. eapply eqf_trans; [apply set_macro_eqf|].
+    eapply eqf_trans; [apply eqd_eqf, err_eqd|apply set_macro_eqf]. }
+  destruct (macro_em_eqf (s2 <| quiet := true |>) ltac:(rewrite (fmt_eqf _ _ F2); exact Hf) ltac:(rewrite (mtags_eqf _ _ F2); exact Hm)) as [Fem _].
+  set (s3' := macro_em (s2 <| quiet := true |>) <| quiet := quiet s2 |> <| args := [] |>).
+  assert (F3 : s3' ~= s) by (unfold s3'; eapply eqf_trans; [apply set_args_eqf|]; eapply eqf_trans; [apply set_quiet_eqf|]; eapply eqf_trans; [exact Fem|exact F2]).
+  eapply eqf_trans; [apply IH; [rewrite (fmt_eqf _ _ F3); exact Hf|rewrite (mtags_eqf _ _ F3); exact Hm]|exact F3]. Qed.
+Lemma close_unclosed_inline_eqf s : fmt s = FX -> markup_ok (mtags s) -> close_unclosed_inline s ~= s.
+Proof. intros Hf Hm. unfold close_unclosed_inline. destruct (sinline s) as [|x l]; [apply eqf_refl|].
+  eapply eqf_trans; [apply set_args_eqf|]. eapply eqf_trans; [apply set_macro_eqf|].
+  eapply eqf_trans; [apply close_inline_loop_eqf; [exact Hf|exact Hm]|apply set_args_eqf]. Qed.
+
+Lemma p_break_eqf s : fmt s = FX -> markup_ok (mtags s) -> p_break s ~= s.
+Proof. intros Hf Hm. unfold p_break. destruct (par s).
+  - unfold close_spanning. destruct (close_fold (mtags s) (rev (sinline s)) Hm s Hf eq_refl) as [c [Ec _]]. rewrite Ec.
+    set (s1 := process_paragraph (wl c s)).
+    assert (F1 : s1 ~= s) by (eapply eqf_trans; [|apply (wl_eqf c s)]; unfold s1, process_paragraph, wo; destruct (wl c s); reflexivity).
+    clearbody s1. cbv zeta. destruct (scope_verse s1 && verse s1).
+    + unfold end_stanza, end_paragraph. rewrite (fmt_eqf _ _ F1), Hf. unfold X.end_stanza, X.end_paragraph.
+      eapply eqf_trans; [apply w_eqf|]. eapply eqf_trans; [apply w_eqf|exact F1].
+    + unfold end_paragraph. rewrite (fmt_eqf _ _ F1), Hf. unfold X.end_paragraph. eapply eqf_trans; [apply w_eqf|exact F1].
+  - unfold end_paragraph. rewrite Hf. unfold X.end_paragraph. apply set_par_eqf. Qed.
